@@ -3,15 +3,18 @@
 
   The solvers touch the operator through exactly two members, `set_shift(...)` and `perform_op(x, y)`.  The model is the sequence
   of those events that one public call produces (`Ev`), run on the operator's installed shift (`exec`); a `perform_op` may throw
-  (the user's code), which ends the call at that point — C++ unwinding runs no `set_shift` (there is no guard object).
+  (the user's code), which ends the call at that point — C++ unwinding runs no `set_shift`, EXCEPT inside a
+  `try { … } catch (...) { m_op.set_shift(r); throw; }` region (`tryRestore r … endTry`), whose handler installs `r` and rethrows.
 
     SymEigsShiftSolver, GenEigsRealShiftSolver   constructor body: `op.set_shift(m_sigma)`; nothing else ever calls `set_shift`
     SymGEigsShiftSolver (3 modes)                `set_shift_and_move` in the constructor's initialiser list; nothing else
     GenEigsComplexShiftSolver                    constructor body: `op.set_shift(m_sigmar, m_sigmai)`;
                                                  `sort_ritzpair` (end of `compute`): `m_op.set_shift(shiftr, 0)` with the probe shift
                                                  `shiftr = rng.random() * m_sigmar + rng.random()`, `rng = SimpleRandom(0)`;
-                                                 up to `2 * nev` applications; `m_op.set_shift(m_sigmar, m_sigmai)`   (as the code is NOW;
-                                                 before commit ddaf8d1 the last statement was missing: `computeComplexOld`)
+                                                 up to `2 * nev` applications inside `try { … } catch (...) { m_op.set_shift(m_sigmar,
+                                                 m_sigmai); throw; }`; `m_op.set_shift(m_sigmar, m_sigmai)`   (as the code is NOW;
+                                                 before the catch-restore was added: `computeComplexUnguarded` (finding F3b);
+                                                 before commit ddaf8d1 the final restore was missing too: `computeComplexOld` (F3))
 
   Generic in the shift type `σ` (a real, or a pair).  Core Lean only.
 -/
@@ -24,16 +27,26 @@ namespace OpShift
 inductive Ev (σ : Type) where
   | setShift (s : σ)
   | performOp
+  /-- entry of a `try` block whose `catch (...)` handler is `set_shift(r); throw;` -/
+  | tryRestore (r : σ)
+  /-- normal exit of that block -/
+  | endTry
   deriving Repr
 
 /-- run events on the installed shift; `throwAt = some k`: the application with 0-based index `k` (counted within this call)
-    throws.  Result: installed shift afterwards, and whether the call ended by the exception. -/
-def exec {σ : Type} : List (Ev σ) → Option Nat → σ → σ × Bool
-  | [], _, s => (s, false)
-  | .setShift t :: r, th, _ => exec r th t
-  | .performOp :: _, some 0, s => (s, true)
-  | .performOp :: r, some (k + 1), s => exec r (some k) s
-  | .performOp :: r, none, s => exec r none s
+    throws; `h` = the restoring handler in force (`none` outside any `try`).  Result: installed shift afterwards, and whether the
+    call ended by the exception. -/
+def execH {σ : Type} : List (Ev σ) → Option Nat → Option σ → σ → σ × Bool
+  | [], _, _, s => (s, false)
+  | .setShift t :: r, th, h, _ => execH r th h t
+  | .tryRestore x :: r, th, _, s => execH r th (some x) s
+  | .endTry :: r, th, _, s => execH r th none s
+  | .performOp :: _, some 0, h, s => (h.getD s, true)
+  | .performOp :: r, some (k + 1), h, s => execH r (some k) h s
+  | .performOp :: r, none, h, s => execH r none h s
+
+/-- a public call starts outside any `try` -/
+def exec {σ : Type} (evs : List (Ev σ)) (th : Option Nat) (s : σ) : σ × Bool := execH evs th none s
 
 /-- a public call: its events and where (if anywhere) the user's operator throws -/
 structure CallEv (σ : Type) where
@@ -59,9 +72,14 @@ def computeReal {σ : Type} (nIter : Nat) : List (Ev σ) := applications nIter
 /-- `compute(...)` of GenEigsComplexShiftSolver as the code is now.  `reachedSort = false`: an exception of the iteration itself
     (not of the operator) ended the call before `sort_ritzpair`. -/
 def computeComplex {σ : Type} (sigma probe : σ) (nIter nProbe : Nat) (reachedSort : Bool) : List (Ev σ) :=
+  applications nIter ++ (if reachedSort then
+    Ev.setShift probe :: Ev.tryRestore sigma :: (applications nProbe ++ [Ev.endTry, Ev.setShift sigma]) else [])
+
+/-- the same before the probe loop was wrapped in `try/catch` (restore on the normal path only): finding F3b -/
+def computeComplexUnguarded {σ : Type} (sigma probe : σ) (nIter nProbe : Nat) (reachedSort : Bool) : List (Ev σ) :=
   applications nIter ++ (if reachedSort then Ev.setShift probe :: (applications nProbe ++ [Ev.setShift sigma]) else [])
 
-/-- the same before the repair (no restore) -/
+/-- the same before the first repair (no restore at all): finding F3 -/
 def computeComplexOld {σ : Type} (probe : σ) (nIter nProbe : Nat) (reachedSort : Bool) : List (Ev σ) :=
   applications nIter ++ (if reachedSort then Ev.setShift probe :: applications nProbe else [])
 
@@ -73,20 +91,27 @@ def probeShift {α : Type} [Add α] [Sub α] [Mul α] [Div α] [Neg α] [Sc α] 
   let (_, r2) := Gen.Rand.draw (α := α) s1
   r1 * sigmar + r2
 
-/-- compressed rendering of an event list for the correspondence: `S<shift>` and `P<count>` tokens -/
+/-- compressed rendering of an event list for the correspondence: `S<shift>` and `P<count>` tokens (`try` markers are not
+    observable on the operator) -/
 def render {σ : Type} (sh : σ → String) : List (Ev σ) → Nat → List String
   | [], 0 => []
   | [], n + 1 => [s!"P{n + 1}"]
   | .performOp :: r, n => render sh r (n + 1)
+  | .tryRestore _ :: r, n => render sh r n
+  | .endTry :: r, n => render sh r n
   | .setShift t :: r, 0 => s!"S{sh t}" :: render sh r 0
   | .setShift t :: r, n + 1 => s!"P{n + 1}" :: s!"S{sh t}" :: render sh r 0
 
-/-- the events that actually happen when the `k`-th application throws -/
-def truncate {σ : Type} : List (Ev σ) → Option Nat → List (Ev σ)
-  | [], _ => []
-  | .setShift t :: r, th => .setShift t :: truncate r th
-  | .performOp :: _, some 0 => [.performOp]
-  | .performOp :: r, some (k + 1) => .performOp :: truncate r (some k)
-  | .performOp :: r, none => .performOp :: truncate r none
+/-- the operator events that actually happen when the `k`-th application throws (the handler's `set_shift` included) -/
+def truncateH {σ : Type} : List (Ev σ) → Option Nat → Option σ → List (Ev σ)
+  | [], _, _ => []
+  | .setShift t :: r, th, h => .setShift t :: truncateH r th h
+  | .tryRestore x :: r, th, _ => truncateH r th (some x)
+  | .endTry :: r, th, _ => truncateH r th none
+  | .performOp :: _, some 0, h => .performOp :: (match h with | some x => [.setShift x] | none => [])
+  | .performOp :: r, some (k + 1), h => .performOp :: truncateH r (some k) h
+  | .performOp :: r, none, h => .performOp :: truncateH r none h
+
+def truncate {σ : Type} (evs : List (Ev σ)) (th : Option Nat) : List (Ev σ) := truncateH evs th none
 
 end OpShift
